@@ -251,6 +251,33 @@ func c12ReadFraming(w *core.W, j int) {
 		w.Count("following_messages_read", 1)
 		w.NontrivialStr("read", fmt.Sprint(size), fmt.Sprint(planHead(plan)))
 	}
+	// Conn.Read (the call zone transfers read envelopes with): a caller buffer of exactly the message's
+	// size, one more and 65535 must receive the whole message; one octet less must be refused
+	for _, bl := range []int{len(want), len(want) + 1, 65535, len(want) - 1} {
+		if bl < 0 || bl > 65535 {
+			continue
+		}
+		cl, sv := netsim.StreamPair()
+		sv.Write(fr)
+		co := &dns.Conn{Conn: cl}
+		buf := make([]byte, bl)
+		var n int
+		var err error
+		w.Eval(1)
+		w.Count("conn_read_calls", 1)
+		if !within(c12Watch, func() { n, err = co.Read(buf) }) {
+			w.Violation("C12/conn-read-hang", fmt.Sprintf("Conn.Read with a %d-octet buffer does not return for a %d-octet message", bl, len(want)), map[string]any{"size": size})
+			fails++
+			break
+		}
+		if bl >= len(want) {
+			if err != nil || n != len(want) || !bytes.Equal(buf[:n], want) {
+				w.Violation("C12/conn-read-exact-buffer", fmt.Sprintf("Conn.Read into a %d-octet buffer for a %d-octet message: n=%d err=%v", bl, len(want), n, err), map[string]any{"size": size, "buffer": bl})
+			}
+		} else if err == nil {
+			w.Violation("C12/conn-read-short-buffer-accepted", fmt.Sprintf("Conn.Read into a %d-octet buffer for a %d-octet message returned n=%d and no error", bl, len(want), n), map[string]any{"size": size, "buffer": bl})
+		}
+	}
 	// early EOF / error at every offset (short frames), sampled for long ones
 	var offs []int
 	if len(fr) <= 400 {
@@ -822,6 +849,6 @@ func init() {
 			"65536+ octet writes; stream/datagram ID handling with 0..5 stale/duplicate/foreign replies in seeded orders; cross-talk: 4..32 concurrent clients x 12 unique requests against real loopback UDP/TCP servers with scribbled recycled buffers and hook delays, offline exactly-once/no-mixing check; a third of the clients sign with TSIG (handler must see TsigStatus nil, signed replies must verify); after every split plan the following message on the stream is read too, incl. segments that carry the end of one frame and the start of the next; race detector on; " +
 			"non-trivial = distinct (size, split plan) / scripted reply order / cross-talk round",
 		Assumptions: []string{"loss of UDP datagrams is legal: an unanswered request stays open, never 'failed'", "a watchdog of 20 s decides 'hang' for in-memory transports"},
-		MinObserved: []string{"split_plans", "fault_offsets", "server_split_plans", "datagram_scripts", "exchanges_udp", "exchanges_tcp", "hook_poolPut", "oversize_response_writes", "following_messages_read", "write_sequences", "signed_requests_handled_udp", "signed_requests_handled_tcp"},
+		MinObserved: []string{"split_plans", "fault_offsets", "server_split_plans", "datagram_scripts", "exchanges_udp", "exchanges_tcp", "hook_poolPut", "oversize_response_writes", "following_messages_read", "conn_read_calls", "write_sequences", "signed_requests_handled_udp", "signed_requests_handled_tcp"},
 	})
 }
